@@ -333,6 +333,12 @@ Fails(s, ev, r) ==
          IF HasAuto(s, ev.h1) /\ HasAuto(s, ev.h2)
          THEN SameFails(s.autos[ev.h1], s.autos[ev.h2], ev) ELSE {"unknown_handle"}
     [] ev.ev = "pure" -> PureFails(ev)
+    \* a search method called on an automaton of the other match kind is documented to panic at
+    \* once; whatever it does, it must come back (C13: every search call returns) -- the hop
+    \* limit of the hook firing, or an endless stream of results, is a call that would not
+    [] ev.ev = "mismatch" ->
+         IF HasAuto(s, ev.h)
+         THEN Chk("mismatch.terminates", {"C13"}, ~ev.hoplimit /\ ~ev.capped) ELSE {"unknown_handle"}
     [] ev.ev = "decode" -> DecodeFails(ev)
     [] ev.ev = "iter_new" -> IF HasAuto(s, ev.h) THEN {} ELSE {"unknown_handle"}
     [] ev.ev = "next" ->
